@@ -45,7 +45,8 @@ def units(tier):
                     us.append(dict(h="lay_prog", prog=p, line=li, j=j, o=o, amp=amp, var=var, sym=sym, std=std, ic=True if var != "plain" else bool(rot % 3), cost=2))
             rot += 1
             std = "f2008" if (f08 or rot % 2) else "f2003"
-            us.append(dict(h="other_prog", prog=p, line=li, kind="semi", std=std, sym=holes[rot % len(holes)] if holes else None, cost=2))
+            if p.get("unit") != "module_spec":
+                us.append(dict(h="other_prog", prog=p, line=li, kind="semi", std=std, sym=holes[rot % len(holes)] if holes else None, cost=2))
             us.append(dict(h="other_prog", prog=p, line=li, kind="indent", std=std, sym=None, cost=1))
             us.append(dict(h="other_prog", prog=p, line=li, kind="case", std=std, sym=None, cost=3))
     return us
